@@ -188,4 +188,58 @@ theorem chunks_take {α : Type} (l : List α) (per : Nat) (P : Nat) :
     rw [List.range_succ, List.flatMap_append, ih, Nat.succ_mul, List.take_add]
     simp
 
+/-! ### counting over a family of filters of which exactly one accepts each element -/
+
+theorem sum_map_add {α : Type} (R : List α) (f h : α → Nat) :
+    (R.map fun i => f i + h i).sum = (R.map f).sum + (R.map h).sum := by
+  induction R with
+  | nil => rfl
+  | cons a R ih => simp only [List.map_cons, List.sum_cons, ih]; omega
+
+theorem indicator_sum (q : Nat → Bool) (i K : Nat) (hq : ∀ j, j < K → (q j = true ↔ j = i)) :
+    ∀ k, k ≤ K → ((List.range k).map fun j => if q j then 1 else 0).sum = if i < k then 1 else 0 := by
+  intro k
+  induction k with
+  | zero => intro _; simp
+  | succ k ih =>
+    intro hk
+    rw [List.range_succ, List.map_append, List.sum_append, ih (by omega)]
+    simp only [List.map_cons, List.map_nil, List.sum_cons, List.sum_nil, Nat.add_zero]
+    have := hq k (by omega)
+    by_cases hki : k = i
+    · have hqk : q k = true := this.mpr hki
+      simp only [hqk, if_true]
+      have h1 : ¬ i < k := by omega
+      have h2 : i < k + 1 := by omega
+      simp [h1, h2]
+    · have hqk : q k = false := by
+        cases hqk : q k
+        · rfl
+        · exact absurd (this.mp hqk) hki
+      simp only [hqk]
+      by_cases hik : i < k
+      · have : i < k + 1 := by omega
+        simp [hik, this]
+      · have : ¬ i < k + 1 := by omega
+        simp [hik, this]
+
+theorem sum_countP_partition {α : Type} (L : List α) (k : Nat) (p : Nat → α → Bool)
+    (h : ∀ a ∈ L, ∃ i, i < k ∧ p i a = true ∧ ∀ j, j < k → p j a = true → j = i) :
+    ((List.range k).map fun i => L.countP (p i)).sum = L.length := by
+  induction L with
+  | nil =>
+    simp only [List.countP_nil, List.length_nil]
+    generalize List.range k = R
+    induction R with
+    | nil => rfl
+    | cons x R ih => simpa using ih
+  | cons a L ih =>
+    have e : (fun i => (a :: L).countP (p i)) = fun i => L.countP (p i) + (if p i a then 1 else 0) := by
+      funext i; rw [List.countP_cons]
+    rw [e, sum_map_add, ih (fun b hb => h b (List.mem_cons_of_mem _ hb))]
+    obtain ⟨i, hi, hpi, hu⟩ := h a List.mem_cons_self
+    have := indicator_sum (fun j => p j a) i k (fun j hj => ⟨fun hj' => hu j hj hj', fun hj' => hj' ▸ hpi⟩) k (Nat.le_refl _)
+    rw [this]
+    simp [hi]
+
 end C08
